@@ -145,13 +145,6 @@ package litefs
 //@   ensures   err != nil ==> s.dbs[name] == old(s.dbs[name]) && has(s.dbs, name) == old(has(s.dbs, name))
 //@   ensures   forall k string :: k != name ==> s.dbs[k] == old(s.dbs[k]) && has(s.dbs, k) == old(has(s.dbs, k))
 //@   ensures   s.BackupClient == old(s.BackupClient) && otherDBsKept(nil) && subsKept()
-//@ func (db *DB) AcquireWriteLock
-//@   requires  db != nil && locksWF(db) && typeis(aload(db.mode), DBMode) && ctx != nil
-//@   ensures   locksWF(db)
-//@   ensures   err == nil ==> result0 != nil && fresh(result0) && guardSetWF(result0, db)
-//@   ensures   err != nil ==> result0 == nil
-//@   ensures   fn == nil && old(dbWF(db)) ==> dbWF(db)
-//@   ensures   fn == nil ==> otherDBsKept(db) && storesKept()
 //@ func (db *DB) recover
 //@   requires  dbWF(db)
 //@   ensures   dbWF(db) && otherDBsKept(db) && storesKept()
